@@ -37,6 +37,7 @@ exec(open(os.path.join(V, "tools", "manifest_engines.py")).read()) if os.path.ex
 TRACE_OF = {**{k: "Trace_Workspace (random array programs)" for k in ("C01", "C04", "C05", "C06", "C07", "C13", "C15")},
             **{k: "Trace_Stocks (histories on one stock object, exact fractions)" for k in ("C03", "C08", "C09", "C10", "C16", "C17")},
             **{k: "Trace_Tables (histories of imports into one array)" for k in ("C11", "C12")}}
+LIFE_OF = ("C02", "C05", "C17", "C18", "C19")
 L2_OF = {"C03": "StocksImpl", "C09": "StocksImpl", "C10": "StocksImpl", "C06": "ArrayStore"}
 for p in props:
     pid = p["id"]
@@ -44,6 +45,11 @@ for p in props:
         c = dict(CLAIMED[pid])
         if pid in TRACE_OF and "Trace_" not in c["technique"]:
             c["technique"] += "; traces recorded from the real code validated by TLC against the same specification: " + TRACE_OF[pid]
+        if pid in LIFE_OF and "Lifecycle" not in c["technique"]:
+            c["technique"] += ("; whole model runs as one TLA+ state machine (Lifecycle.tla): all bounded histories of MC_Lifecycle replayed into real "
+                               "MFASystem objects, and recorded histories on random models validated by TLC (Trace_Lifecycle)")
+        if pid == "C13" and "Trace_DimSets" not in c["technique"]:
+            c["technique"] += "; Trace_DimSets (arrays built from every register after every call of random set programs)"
         if pid in L2_OF and L2_OF[pid] not in c["technique"]:
             c["technique"] += f"; L2 refinement {L2_OF[pid]}.tla checked with TLC (pre-fix algorithm refuted)"
         m["checks"].append({
